@@ -52,10 +52,11 @@ ORDER_PAIRS = [
     (True, 2), (2, True), (False, 0),
     ("abc", "abd"), ("abd", "abc"), ("abc", "abc"), ("", "a"), ("a", ""), ("ab", "a"), ("a", "ab"),
     (b"\x89PNG", b"\xff\xfe"), (b"ab", b"ab"), (b"b", b"a"),
+    (b"\x80", b"\x81"), (b"\x81", b"\x80"), (b"caf\xe9", b"caf\xe8"), (b"\xff", b"\xc3\xa9"), (b"\xc3\xa9", b"\xff"), (bytearray(b"\xfe"), bytearray(b"\xfd")),  # bytes that are not UTF-8 and differ only there
     ({1}, {2}), ({1}, {1, 2}), ({1, 2}, {1}), ({1}, {1}),
     (1, "a"), ("a", 1), (None, None), (None, 1), ((1, 2), (1, 3)), ((1, 3), (1, 2)),
 ]
-MEMBER_PAIRS = [(1, [1, 2]), (3, [1, 2]), (3, []), ("a", "abc"), ("z", "abc"), (1, {1: 2}), (2.5, (1, 2)), (NAN, [NAN]), (NAN, [1.0]), (1, 5), ("a", [1, "b"]), (BIG, [1, BIG + 1])]
+MEMBER_PAIRS = [(b"\x80", [b"\x81"]), (b"\x80", b"a\x81b"), (1, [1, 2]), (3, [1, 2]), (3, []), ("a", "abc"), ("z", "abc"), (1, {1: 2}), (2.5, (1, 2)), (NAN, [NAN]), (NAN, [1.0]), (1, 5), ("a", [1, "b"]), (BIG, [1, BIG + 1])]
 IDENT_PAIRS = [(None, None), (None, 1), (1, 1.0), ("a", "b")]
 
 
